@@ -56,6 +56,11 @@ impl Group for C10Sim {
             // closing then further updates are refused
             c("vh 0 g 0|sh 0|rv 0|vh 1 g 3|mc g|scp 0 0"),
             c("ks 1000|ksdup 7|newch 3|newch 3|forget 1|newch 3|newch 2|forget 0|hb|restart|newch 1"),
+            // a counterparty whose revocation secrets match the signed points but do not chain
+            c("scp 0 0|scpr 0 1|cpr 0 g|scp 0 2|cpr 0 g|scp 0 3|cpr 0 g"),
+            c("scpr 0 0|scp 0 1|cpr 0 g|scpr 0 2|cpr 0 g"),
+            // re-signing the funding transaction: accepted, then refused at the signing step
+            c("osign g|osign b|vh 0 g 0|rv 0|osign g"),
         ]
     }
     fn gen_case(&self, rng: &mut Rng, tier: Tier) -> Vec<String> {
@@ -79,7 +84,18 @@ impl Group for C10Sim {
                     seen_err = true;
                     let d = diff_views(&before_view, &after_view);
                     if !d.is_empty() {
-                        co.violations.push(Violation { kind: format!("refused-request-changed-memory:{}", kind), desc: format!("{} returned {} but changed {:?}", op, out.class(), d), at: i });
+                        // the kind names the request and the components that changed, so that a listed
+                        // finding suppresses exactly that combination
+                        let mut comps: Vec<String> = d.iter().map(|k| {
+                            let k = k.split(' ').next().unwrap();
+                            if k.starts_with("chan.") { if k.ends_with(".monitor") { "chan.monitor".to_string() } else { "chan".to_string() } }
+                            else if k.starts_with("tracker.") { "tracker".to_string() }
+                            else if k == "node.allowlist.len" { "node.allowlist".to_string() }
+                            else { k.to_string() }
+                        }).collect();
+                        comps.sort();
+                        comps.dedup();
+                        co.violations.push(Violation { kind: format!("refused-request-changed-memory:{}:{}", kind, comps.join("+")), desc: format!("{} returned {} but changed {:?}", op, out.class(), d), at: i });
                     }
                     if before_store != after_store {
                         let ks: Vec<&String> = after_store.iter().filter(|(k, v)| before_store.get(*k) != Some(v)).map(|(k, _)| k).collect();
